@@ -130,7 +130,11 @@ theorem normalize_writes (h : Heap K) (o band : Nat) (force : Bool) (stat : Over
                 cases stat <;> simp_all [Overlap.isPartial]
               split at hl
               · simp [writeSet_nil] at hl
-              · simp only [documented, hp, if_true]
+              · rename_i hrefuse
+                have hdoc : documented h (.normalize o band force stat k numErr) = forceLocs h o := by
+                  simp only [documented]
+                  rw [if_pos ⟨hp, hrefuse⟩]
+                rw [hdoc]
                 split at hl
                 · rw [writeSet_forceEffects h o A hA] at hl; exact hl
                 · rw [writeSet_append, writeSet_forceEffects h o A hA] at hl
